@@ -6,3 +6,4 @@ import L21.Props.C16
 #print axioms L21.LefRaw.c16_outline
 #print axioms L21.LefRaw.c16_one_shape_per_geometry
 #print axioms L21.LefRaw.c16_rect_coords
+#print axioms L21.LefRaw.c16_layer_blocks
